@@ -282,6 +282,20 @@ def fixed_cases(tier):
                         return {'cls': cls, 'max_size': 2, 'on_miss': on_miss, 'preload': _PRE,
                                 'threads': [[a1], [b1]], 'sched': {'kind': 'explicit', 'switches': [[j + 1, 1]]}}
                     sw.add(n, mk)
+    # snapshot floor: another thread copies the shared cache (update / values=) while a writer is pre-empted
+    # once at each of its yield points
+    for cls in ('LRI', 'LRU'):
+        for ia, a in enumerate(SWEEP_OPS):
+            if a[0] not in MUTATORS or a[0] in ('copy', 'get', 'getd'):
+                continue
+            a1 = _retag(a, 'a')
+            n = steps[(cls, 'none', ia)]
+
+            def mks(j, cls=cls, a1=a1):
+                return {'mode': 'snapshot', 'cls': cls, 'max_size': 2, 'on_miss': 'none', 'preload': _PRE,
+                        'threads': [[a1]], 'how': 'update' if j % 2 == 0 else 'values',
+                        'sched': {'kind': 'explicit', 'switches': [[j + 1, 1]]}}
+            sw.add(n, mks)
     if tier == 'thorough':
         for cls in ('LRI', 'LRU'):
             for ia, a in enumerate(SWEEP_OPS):
